@@ -88,6 +88,7 @@ DEFAULT_PROFILE = {
     'multi_import_clauses': True,
     'allow_no_imports': True,
     'reuse_names': True,          # a module may declare a node named like a node of an earlier module
+    'fixture_objects': True,      # INDEX / OBJECTS / VARIABLES may name ifIndex, sysDescr ... of the base MIBs
     'sequential_names': False,    # identifiers n1, N2, n3 ... by order of creation: independently drawn sets share their names
     'macro_end_substring': None,  # MACRO bodies containing END inside longer words (D25); None = unless D25 is open
 
@@ -271,6 +272,15 @@ class Builder(object):
         self.notifs = []     # {'module','name'}
         self.groups = []     # {'module','name'}
         self.rows = []       # {'module','name','index':[...]}
+        if prof['fixture_objects']:
+            # managed objects of the fixture base MIBs: SMIv2 modules import them from their SMIv2 home, SMIv1 modules
+            # from RFC1213-MIB / RFC1158-MIB (the compiler relocates those imports)
+            for mod_, nm, role in (('IF-MIB', 'ifIndex', 'column'), ('IF-MIB', 'ifNumber', 'scalar'),
+                                   ('SNMPv2-MIB', 'sysDescr', 'scalar'), ('SNMPv2-MIB', 'sysUpTime', 'scalar')):
+                self.objects.append({'module': mod_, 'name': nm, 'role': role, 'access': 'read-only', 'fixture': True, 'dialect': 'v2'})
+                for v1m in ('RFC1213-MIB', 'RFC1158-MIB'):
+                    self.objects.append({'module': v1m, 'name': nm, 'role': role, 'access': 'read-only', 'fixture': True, 'dialect': 'v1'})
+        self.v1base = {}
         self.hide = set()    # names about to be declared locally: same-named symbols of other modules are invisible
         for n, (mod, oid) in fixtures.WELL_KNOWN.items():
             self.nodes.append({'module': mod, 'name': n, 'oid': tuple(oid), 'fixture': True})
@@ -371,6 +381,19 @@ class Builder(object):
             else:
                 spelled.append(['n', k])
         return {'first': first, 'arcs': spelled}, oid
+
+    def fixture_ok(self, mod, o):
+        """Objects of the base MIBs are offered under one module per importing module: the SMIv2 home for SMIv2
+        modules, one of RFC1213-MIB / RFC1158-MIB (drawn once per module) for SMIv1 modules."""
+        if not o.get('fixture'):
+            return True
+        if o['dialect'] != mod['dialect']:
+            return False
+        if mod['dialect'] == 'v1':
+            if mod['name'] not in self.v1base:
+                self.v1base[mod['name']] = self.draw(st.sampled_from(('RFC1213-MIB', 'RFC1213-MIB', 'RFC1213-MIB', 'RFC1158-MIB')))
+            return o['module'] == self.v1base[mod['name']]
+        return True
 
     def shadowed(self, mod, o):
         """o (a pool entry of another module) is hidden: by a local declaration of the same name, or by a same-named
@@ -768,6 +791,7 @@ def _gen_table(b, mod):
         foreign = [[o['module'], o['name']] for o in b.objects if o['role'] == 'column'
                    and o['name'] not in [c['name'] for c in cols]
                    and (o['module'] == mod['name'] or b.prof['hyphen_imports'] or '-' not in o['name'])
+                   and b.fixture_ok(mod, o)
                    and not b.shadowed(mod, o)]
         idx = []
         for i in range(nidx):
@@ -811,6 +835,7 @@ def _pick_refs(b, mod, pool, lo, hi):
     draw = b.draw
     pool = [o for o in pool if (o['module'] == mod['name'] or b.prof['hyphen_imports'] or '-' not in o['name'])]
     pool = [o for o in pool if not b.shadowed(mod, o)]
+    pool = [o for o in pool if b.fixture_ok(mod, o)]
     if mod['dialect'] == 'v1':
         pool = [o for o in pool if o['module'] == mod['name'] or _is_v1_module(b, o['module'])]
     if not pool:
@@ -859,7 +884,7 @@ def _gen_tt(b, mod):
 def _gen_og(b, mod):
     pool = [o for o in b.objects if o['role'] in ('scalar', 'column')]
     pool = [o for o in pool if (o['module'] == mod['name'] or b.prof['hyphen_imports'] or '-' not in o['name'])]
-    pool = [o for o in pool if not b.shadowed(mod, o)]
+    pool = [o for o in pool if not b.shadowed(mod, o) and b.fixture_ok(mod, o)]
     if not pool:
         return _gen_scalar(b, mod)
     objs = _pick_refs(b, mod, pool, 1, 6) or [[pool[0]['module'], pool[0]['name']]]
@@ -1171,7 +1196,7 @@ def module_sets(draw, prof=None):
                     parent_name, parent_num = cname, cnum
                 groups.append(chain)
             # a scalar named like a table column (or scalar) of an earlier module
-            fobjs = [o for o in b.objects if o['module'] != mname and o['role'] in ('column', 'scalar')
+            fobjs = [o for o in b.objects if o['module'] != mname and o['role'] in ('column', 'scalar') and not o.get('fixture')
                      and not any(n['module'] == mname and n['name'] == o['name'] for n in b.nodes)]
             if fobjs and 'scalar' in kinds and draw(st.booleans()):
                 o = draw(st.sampled_from(fobjs))
